@@ -249,6 +249,12 @@ def run(facts, tier):
                 ctors = [n for n in find(body, lambda n: n.get("k") == "Call" and (n["f"].get("path") or {}).get("def") == f"{NUM}::Float")]
                 hashes = [c for c in callees(body) if c.endswith("Hash>::hash") or c.endswith("Hash::hash")]
                 ok = (bool(ctors) or any("from_dec_str" in c for c in callees(body))) and bool(hashes)
+            if ok and k == "BigInt":
+                conds = [callees(n["c"]) for n in find(body, lambda n: n.get("k") == "If")]
+                flat = [c.split("::")[-1] for cs_ in conds for c in cs_]
+                if flat != ["is_finite"]:
+                    ok = False
+                    t4.notes.append(f"BigInt hash route is conditional on {flat}, expected only is_finite of the converted float")
             t4.examined(("hash-route", k), True, {"hash_of": k, "through_float_hash": ok})
             if not ok:
                 t4.violate(f"hash-route/{k}", f"Hash for Num::{k} does not go through the float hash: 1, 1.0 and 1e0 would hash differently although equal")
